@@ -510,6 +510,52 @@ func ruleServiceLifecycle(c *Ctx) {
 			}
 		}
 	}
+
+	// 9. admission precedes the handshake: the service decides whether it takes the connection (newWSConn,
+	//    under the service lock, atomically with Stop) before it answers the upgrade request. An upgrade that
+	//    is answered first leaves a refused client with an open socket nobody owns or closes.
+	if fn := p.Fn("(*server.Service).wsHandler"); fn != nil {
+		newConn := p.Fn("(*server.Service).newWSConn")
+		if newConn != nil {
+			fns := p.withNewHelpers(fn)
+			admitted := func(at ssa.Instruction) bool {
+				for _, call := range callsIn(at.Block().Parent()) {
+					if call.Common().StaticCallee() == newConn && dominates(call, at) {
+						return true
+					}
+				}
+				return false
+			}
+			for _, g := range fns {
+				for _, call := range callsIn(g) {
+					m := calleeFunc(call.Common())
+					if m == nil || m.Name() != "Upgrade" || m.Pkg() == nil || !strings.Contains(m.Pkg().Path(), "websocket") {
+						continue
+					}
+					c.inst(1)
+					ok := admitted(call)
+					if !ok && g != fn && g.Parent() == nil {
+						// the handshake lives in a helper: every call of the helper lies behind the admission
+						ok = true
+						n := 0
+						for _, h := range fns {
+							for _, hc := range callsIn(h) {
+								if hc.Common().StaticCallee() == g {
+									n++
+									if !admitted(hc) {
+										ok = false
+									}
+								}
+							}
+						}
+						ok = ok && n > 0
+					}
+					c.check(ok, fnName(g), "the service admits a WebSocket connection before it answers the handshake", p.InstrPos(call), "Upgrade dominated by newWSConn",
+						"the handshake is answered on a path that has not asked newWSConn: a request arriving while the service stops gets an established WebSocket that is in no registry and is never closed")
+				}
+			}
+		}
+	}
 }
 
 // handsBoundMethod: fn (or a helper extracted from it) hands the bound method value x.<name> to some function.
